@@ -8,7 +8,7 @@ import GMGDriver.OpsDrv
 (`GMGModel/Concrete.lean`: the control-flow IR interpreted over the code-level models of smoothers, residual, transfers and the
 coarse direct solver), in exact rationals and in IEEE double. -/
 namespace ConcreteDrv
-open Drv Cycle Concrete OpsDrv
+open Drv MGCycle Concrete OpsDrv
 
 structure St where
   stats : Stats := {}
